@@ -419,4 +419,11 @@ def rb_binding_agreement(ctx: Ctx) -> None:
     binding_agreement(ctx)
 
 
-RULES = [r1_precedence_order, r2_associativity, r3_evaluation_dispatch, r4_literal_bases, r5_single_evaluator, rb_binding_agreement]
+def rm_no_process_lifetime_results(ctx: Ctx) -> None:
+    """memoising decorators, module-level stores and mutable defaults on this property's mechanism (shared rule, caches.py)"""
+    from ..caches import state_rule
+
+    state_rule(ctx)
+
+
+RULES = [r1_precedence_order, r2_associativity, r3_evaluation_dispatch, r4_literal_bases, r5_single_evaluator, rb_binding_agreement, rm_no_process_lifetime_results]
